@@ -136,6 +136,7 @@ type omap struct {
 	index   map[string]int
 	entries []omapEntry
 	n       int
+	nSym    int // live entries whose key contains a symbolic scalar
 }
 
 func makeMap(kt types.Type, reserve int64) value {
@@ -149,39 +150,84 @@ func (m *omap) len() int {
 	return m.n
 }
 
-func (m *omap) lookup(k value) (value, bool) {
+// find locates key k. Concrete keys in a map without symbolic keys use the hash index; otherwise
+// the entries are compared one by one and a symbolic equality forks the exploration (case split
+// over the existing keys + "none of them").
+func (m *omap) find(fr *frame, k value) int {
 	if m == nil {
-		return nil, false
+		return -1
 	}
-	if i, ok := m.index[keyString(k)]; ok {
+	if m.nSym == 0 && !hasSym(k) {
+		if i, ok := m.index[keyString(k)]; ok {
+			return i
+		}
+		return -1
+	}
+	if fr == nil {
+		panic(engineError{"symbolic map key without an execution frame"})
+	}
+	for i := range m.entries {
+		e := &m.entries[i]
+		if e.deleted {
+			continue
+		}
+		switch c := equals(fr, m.keyType, k, e.key).(type) {
+		case bool:
+			if c {
+				return i
+			}
+		case SymBool:
+			if fr.decide(c.T, "map.key==") {
+				return i
+			}
+		}
+	}
+	return -1
+}
+
+func (m *omap) lookupF(fr *frame, k value) (value, bool) {
+	if i := m.find(fr, k); i >= 0 {
 		return m.entries[i].val, true
 	}
 	return nil, false
 }
 
-func (m *omap) insert(k, v value) {
-	ks := keyString(k)
-	if i, ok := m.index[ks]; ok {
+func (m *omap) lookup(k value) (value, bool) { return m.lookupF(nil, k) }
+
+func (m *omap) insertF(fr *frame, k, v value) {
+	if i := m.find(fr, k); i >= 0 {
 		m.entries[i].val = v
 		return
 	}
-	m.index[ks] = len(m.entries)
+	if hasSym(k) {
+		m.nSym++
+	} else {
+		m.index[keyString(k)] = len(m.entries)
+	}
 	m.entries = append(m.entries, omapEntry{key: k, val: v})
 	m.n++
 }
 
-func (m *omap) delete(k value) {
+func (m *omap) insert(k, v value) { m.insertF(nil, k, v) }
+
+func (m *omap) deleteF(fr *frame, k value) {
 	if m == nil {
 		return
 	}
-	ks := keyString(k)
-	if i, ok := m.index[ks]; ok {
-		m.entries[i].deleted = true
-		m.entries[i].val = nil
-		delete(m.index, ks)
+	if i := m.find(fr, k); i >= 0 {
+		e := &m.entries[i]
+		if hasSym(e.key) {
+			m.nSym--
+		} else {
+			delete(m.index, keyString(e.key))
+		}
+		e.deleted = true
+		e.val = nil
 		m.n--
 	}
 }
+
+func (m *omap) delete(k value) { m.deleteF(nil, k) }
 
 func (m *omap) clear() {
 	if m == nil {
@@ -192,6 +238,7 @@ func (m *omap) clear() {
 	}
 	m.index = make(map[string]int)
 	m.n = 0
+	m.nSym = 0
 }
 
 type omapIter struct {
